@@ -455,11 +455,15 @@ func (s *sim) afterOp() {
 	// C06: no lock left held. RR waiters take a read lock for an instant on
 	// their 100ms tick, so retry before concluding.
 	locked := true
-	for i := 0; i < 200 && locked; i++ {
+	tries := 1
+	if len(s.waiters) > 0 {
+		tries = 200
+	}
+	for i := 0; i < tries && locked; i++ {
 		if s.b.mu.TryLock() {
 			s.b.mu.Unlock()
 			locked = false
-		} else {
+		} else if i+1 < tries {
 			time.Sleep(10 * time.Millisecond)
 		}
 	}
@@ -786,6 +790,10 @@ func (s *sim) report(c *simConn, st connectivity.State) {
 				if tfBoundary {
 					cls = "tf-boundary"
 				}
+				if swap != nil && s.prop == "C07" {
+					// the same observation under C07's wording: the replacement did not take over a channel whose old connection had left READY
+					s.fail("C07.swap-takeover", cls, "replacement %v became READY for channel %d whose old connection was not READY, but no new picker/state was published: the replacement did not take over the channel", c, swap.id)
+				}
 				s.fail("C04.missing-publish", cls, "state %v -> %v, aggregate %v -> %v: nothing published", c, st, aggBefore, aggAfter)
 			}
 		}
@@ -1037,6 +1045,10 @@ func (s *sim) start(method string, key string, p *simPub, withGcp bool, hasDl bo
 		}
 	default:
 		s.hit("C02.at-max")
+		if ch == nil && s.prop == "C03" {
+			// C03's wording: at maxSize calls are placed even above the watermark
+			s.fail("C03.at-max-placed", cls, "pool at maxSize=%d (every READY channel at/above the watermark): the call must be placed on the least-loaded channel, got err=%v", s.maxSize, err)
+		}
 		if ch == nil || !inSnap(ch) || inflightBefore[ch] != mn {
 			s.fail("C02.at-max", cls, "pool at max, min in-flight %d: got %s err=%v", mn, simChID(ch), err)
 		}
@@ -2142,6 +2154,10 @@ func TestVerifPoolSim(t *testing.T) {
 		if s.viol != nil {
 			v := *s.viol
 			v.Log = s.log
+			if env.Prop == "C09" && s.rr && s.hits["C09.rr-pick"]+s.hits["C09.rr-wait"] > 0 && (v.Rule == "C06.lock-held" || v.Rule == "C06.deadlock" || v.Rule == "C06.blocked") {
+				// C09: "calls that are not BIND are unaffected by the strategy" - after round-robin BIND picks the balancer is left locked / an operation that may not wait is blocked
+				v = vViol{Sig: "C09.others-unaffected:" + v.Sig, Rule: "C09.others-unaffected", Detail: "under ROUND_ROBIN, after BIND picks, a lock is left held or an operation that may not wait is blocked: " + v.Detail, Case: v.Case, Log: v.Log}
+			}
 			if strings.HasPrefix(v.Rule, env.Prop+".") {
 				out.violation(v)
 			} else {
